@@ -1,5 +1,6 @@
 import Driver.Codec
 import LopdfModel.Model.Filters
+import LopdfModel.Spec.Lzw
 namespace Lopdf.Driver.C09
 open Lopdf Lopdf.Codec
 
@@ -73,6 +74,17 @@ def handle (op : String) (args : List String) : Option String :=
         | .err e => "err " ++ (if e = "invalid PNG filter type" then "invalid" else if e = "failed to fill whole buffer" then "eof" else "other")
         | .panic _ => "panic"
       | _, _, _ => "bad-op"
+    | _ => "bad-op"
+  | "lzwspec" | "lzwout" =>
+    -- the LZW reference decoder of Spec/Lzw.lean (validation of the shipped weezl results)
+    some <| match args with
+    | [e, h] =>
+      match (if e = "0" then some false else if e = "1" then some true else none), bytesOfHex h with
+      | some early, some inp =>
+        let r := Lopdf.Spec.Lzw.decode early inp
+        if op = "lzwout" then hexTok r.1
+        else (match r.2 with | .eod => "eod " | .truncated => "truncated " | .invalid => "invalid ") ++ hexTok r.1
+      | _, _ => "bad-op"
     | _ => "bad-op"
   | "filters" =>
     some <| withStream args fun s rest =>
